@@ -478,6 +478,20 @@ class DepAnalysis:
 
     def stmt(self, s: ast.stmt, signs: frozenset, ctrl: Set[Dep], ground: Set[str]) -> None:
         if isinstance(s, ast.Expr):
+            # a call made for its effect (a helper filling a scratch array): whatever it is given may flow into every array it is given
+            c = s.value
+            if isinstance(c, ast.Call) and not (isinstance(c.func, ast.Attribute) and isinstance(c.func.value, ast.Name) and c.func.value.id in ("np", "numpy", "math")):
+                rd: Set[Dep] = set()
+                for a_ in list(c.args) + [k.value for k in c.keywords]:
+                    rd |= self.reads(a_, signs, ground)
+                if isinstance(c.func, ast.Attribute):
+                    rd |= self.reads(c.func.value, signs, ground)
+                outs = [a_ for a_ in c.args if isinstance(a_, ast.Name)] + ([c.func.value] if isinstance(c.func, ast.Attribute) and isinstance(c.func.value, ast.Name) else [])
+                for a_ in outs:
+                    if self.view_of(a_) is not None:
+                        self.problems.append(f"a helper called for its effect receives the domains ({ast.unparse(c)[:40]}) at line {s.lineno}")
+                    elif a_.id not in self.fn.params:
+                        self.taint.setdefault(a_.id, set()).update(rd | ctrl)
             return
         if isinstance(s, (ast.Assign, ast.AugAssign, ast.AnnAssign)):
             targets = s.targets if isinstance(s, ast.Assign) else [s.target]
@@ -626,7 +640,8 @@ def rule_triggers(ctx: Ctx, prog: Program) -> None:
                             bad.append(f"{desc} (line {line}) depends on the {b} of {_cls_name(cls)}"
                                        + (f" when its coefficient is {_sg(sg)}" if cls == "COEF" else "")
                                        + f", but {t.name} gives {where} the mask {mm}")
-        if bad and da.selectors:
+        if bad and da.selectors and any(oc == "COEF" for oc, _, _ in spec.overrides):
+            # (only where the declared events depend on the sign of a coefficient can a run-time selection make the derived dependence too coarse)
             raise AnalysisError(f"{c.name}: its triggers are narrower than MIN|MAX but its bound dependences can no longer be derived exactly: at line "
                                 f"{da.selectors[0]} a min/max/abs/where-like call selects between the two bounds of a variable by run-time values "
                                 f"(derived may-dependence: {bad[0]})")
@@ -637,7 +652,7 @@ def rule_triggers(ctx: Ctx, prog: Program) -> None:
             ctx.ok("R-TRIGGERS", f"{c.name}: every bound its stores / failure tests depend on is watched ({n_ob} dependences, {len(da.obligations)} sites)",
                    sample={"default": spec.default, "overrides": [(a, sorted(b_), m) for a, b_, m in spec.overrides],
                            "dependences": sorted({f"{cls}.{b}{'/' + ','.join(sorted(sg)) if cls == 'COEF' else ''}" for _, _, deps, _ in da.obligations for cls, b, sg, _ in deps})})
-    ctx.floor("R-TRIGGERS:propagators-with-full-mask", n_full, 16)
+    ctx.floor("R-TRIGGERS:propagators-with-full-mask", n_full, 12)
     ctx.floor("R-TRIGGERS:propagators-with-narrow-mask", n_narrow, 5)
     ctx.assume("entailment guards are monotone (a watched-or-unwatched bound change never invalidates an earlier 'entailed'); C07's undecided half")
 
@@ -1071,11 +1086,23 @@ def rule_entail_guard(ctx: Ctx, prog: Program) -> None:
         ctx.fn(fn.fq)
         n_fam[fam] += 1
         bad_line = None
+        extra_why = ""
         for r in ent:
             st = r.state
             f = st.facts
             if fam == "index":
                 okk = _ground_at_some_point(it, r, dom, rows[0], MIN, MAX, fn.node)
+                # a path that makes one variable's row a copy of another's (`l[i] = v`) enforces their equality: two variables that share
+                # an interval are equal on the whole box only if that interval is a single value
+                if okk:
+                    for e_ in r.state.trace:
+                        if e_.kind == "store" and e_.root == dom and e_.fn == fn.fq:
+                            src_ = as_view(e_.value)
+                            if isinstance(src_, View) and src_.root == dom and src_.idx and isinstance(src_.idx[0], Aff) and src_.idx[0].is_const() \
+                                    and not (e_.idx and isinstance(e_.idx[0], Aff) and e_.idx[0] == src_.idx[0]):
+                                if not _ground_at_some_point(it, r, dom, src_.idx[0], MIN, MAX, fn.node):
+                                    okk = False
+                                    extra_why = f" and that the variable whose row is copied into another's (row {show_val(src_.idx[0])}) is a single value"
             elif fam == "counter":
                 a, b = counters  # type: ignore[misc]
                 okk = a in st.env and b in st.env and f.decide(cmp_cond("==", it.scalar(st, st.env[a]), it.scalar(st, st.env[b]))) is True
@@ -1092,7 +1119,7 @@ def rule_entail_guard(ctx: Ctx, prog: Program) -> None:
             ctx.ok("R-ENTAIL-GUARD", f"{fn.name} ({fam} family): every 'entailed' path entails that {what}", sample={"entailed_paths": len(ent)})
         else:
             ctx.violation("R-ENTAIL-GUARD", fn.path, fn.name, f"entailed-without:{fam}", f"{fn.path}:{bad_line}",
-                          f"{fn.name} has a path that answers PROP_ENTAILMENT on which it is not established that {what}: the returned box can then "
+                          f"{fn.name} has a path that answers PROP_ENTAILMENT on which it is not established that {what}{extra_why}: the returned box can then "
                           "still contain tuples that violate the constraint, the engine disables the constraint for the whole subtree and those "
                           "tuples are accepted as solutions")
     ctx.floor("R-ENTAIL-GUARD:index-family", n_fam["index"], 3)
@@ -1231,3 +1258,76 @@ def rule_sole_candidate(ctx: Ctx, prog: Program) -> None:
                                   "the 'sole' candidate is forced and every solution in which the other variable is the aggregate is removed "
                                   "(e.g. max(x0, x1) = y on x0 in [0,5], x1 in [0,3], y in [2,5] loses (0,2,2), (1,3,3), ...)")
     ctx.floor("R-SOLE-CANDIDATE:aggregate-constraints", n, 2)
+
+
+# ------------------------------------------------------------------------------------------ R-INTERVAL-SUM
+def rule_interval_sum(ctx: Ctx, prog: Program) -> None:
+    """Interval arithmetic over a signed coefficient: the smallest value of c * x is c * min(x) when c > 0 and c * max(x) otherwise (and the
+    other way round for the greatest).  A scan that keeps two accumulators and branches on the sign of the coefficient states this four
+    times; the four statements constrain each other: within one sign branch the two accumulators read the two *different* bounds of the
+    variable, and each accumulator reads the *other* bound in the other sign branch.  A copy/paste slip (both accumulators reading MIN in one
+    branch) breaks the symmetry; the accumulators then no longer bound the sum and the entailment / failure tests and pruning formulas
+    derived from them are wrong.  No specification is consulted: the four statements contradict each other."""
+    ctx.rule("R-INTERVAL-SUM")
+    n = 0
+    seen: Set[str] = set()
+    work: List[FuncInfo] = [c for _, c, _ in propagator_triples(prog)]
+    while work:
+        fn = work.pop()
+        if fn.fq in seen:
+            continue
+        seen.add(fn.fq)
+        MIN, MAX = prog.C("MIN"), prog.C("MAX")
+
+        def bound_name(e: ast.expr) -> Optional[str]:
+            v = prog.fold(fn.module, e)
+            return "MIN" if v == MIN and v is not NO else "MAX" if v == MAX and v is not NO else None
+
+        def updates(stmts: List[ast.stmt]) -> Dict[str, Set[str]]:
+            """accumulator name -> bounds of domain cells read in its update, for `acc -= / += ...` and `acc = acc - / + ...` statements"""
+            out: Dict[str, Set[str]] = {}
+            for st in stmts:
+                tgt = None
+                val: Optional[ast.expr] = None
+                if isinstance(st, ast.AugAssign) and isinstance(st.target, ast.Name) and isinstance(st.op, (ast.Add, ast.Sub)):
+                    tgt, val = st.target.id, st.value
+                elif isinstance(st, ast.Assign) and len(st.targets) == 1 and isinstance(st.targets[0], ast.Name) and isinstance(st.value, ast.BinOp) \
+                        and isinstance(st.value.op, (ast.Add, ast.Sub)) and isinstance(st.value.left, ast.Name) and st.value.left.id == st.targets[0].id:
+                    tgt, val = st.targets[0].id, st.value.right
+                if tgt is None or val is None:
+                    continue
+                bs = set()
+                for x in ast.walk(val):
+                    if isinstance(x, ast.Subscript) and isinstance(x.slice, ast.Tuple) and len(x.slice.elts) == 2:
+                        b = bound_name(x.slice.elts[1])
+                        if b:
+                            bs.add(b)
+                if bs:
+                    out.setdefault(tgt, set()).update(bs)
+            return out
+
+        for loop in [x for x in ast.walk(fn.node) if isinstance(x, ast.For)]:
+            for node in loop.body:
+                if not (isinstance(node, ast.If) and node.orelse and not (len(node.orelse) == 1 and isinstance(node.orelse[0], ast.If))):
+                    continue
+                names = [x.id for x in ast.walk(loop.target) if isinstance(x, ast.Name)]
+                if not any(_sign_of_test(node.test, nm) is not None for nm in names):
+                    continue
+                a, b = updates(node.body), updates(node.orelse)
+                accs = sorted(set(a) & set(b))
+                if len(accs) != 2 or any(len(a[x]) != 1 or len(b[x]) != 1 for x in accs):
+                    continue
+                n += 1
+                ctx.fn(fn.fq)
+                p, q = accs
+                pa, qa, pb, qb = next(iter(a[p])), next(iter(a[q])), next(iter(b[p])), next(iter(b[q]))
+                if pa != qa and pb != qb and pa != pb and qa != qb:
+                    ctx.ok("R-INTERVAL-SUM", f"{fn.name}: the two accumulators read opposite bounds, swapped between the two signs of the coefficient",
+                           sample={p: [pa, pb], q: [qa, qb], "line": node.lineno})
+                else:
+                    ctx.violation("R-INTERVAL-SUM", fn.path, fn.name, f"asymmetric:{p}:{q}", f"{fn.path}:{node.lineno}",
+                                  f"{fn.name}: in the scan branching on the sign of the coefficient, `{p}` reads {pa} / {pb} and `{q}` reads {qa} / {qb} "
+                                  "(positive / other branch): interval arithmetic needs the two accumulators to read opposite bounds in each branch and "
+                                  "each to swap its bound between the branches; as written one accumulator no longer bounds the sum, so the test or "
+                                  "the pruning derived from it is wrong (e.g. 'entailed' declared on a box that still contains violating tuples)")
+    ctx.floor("R-INTERVAL-SUM:sign-branching-scans", n, 3)
